@@ -355,10 +355,10 @@ struct Explorer {
         if (hang) { f.props = "*"; f.key = "hang"; f.msg = "execution made no progress for " + std::to_string((int)opt.hang_timeout) + " s of wall time (unbounded non-synchronising loop or real blocking)"; }
         else if (rec.status == RS_FAILED) { f.props = rec.props; f.key = rec.key; f.msg = rec.msg; }
         else {
-          std::string err = read_file_tail(s.errpath, 20000);
+          std::string err = read_file_tail(s.errpath, 60000);
           f.props = "*";
           classify_crash(err, wstatus, f.key, f.msg);
-          f.detail = err.substr(0, 6000);
+          f.detail = err.substr(0, 30000);
         }
         add_failure(std::move(f));
       }
@@ -567,14 +567,14 @@ std::string replay_once(const HarnessInfo& h, const std::vector<uint16_t>& choic
     usleep(2000);
   }
   std::string res;
-  std::string err = read_file_tail(errpath, 20000);
+  std::string err = read_file_tail(errpath, 400000);
   ::unlink(errpath.c_str());
   if (hung) res = "FAIL key=hang msg=no progress";
   else if (rec->status == RS_DONE) res = std::string("PASS outcome=") + rec->outcome;
   else if (rec->status == RS_EXPECTED_TERMINATE) res = std::string("PASS outcome=") + rec->outcome;
   else if (rec->status == RS_FAILED) res = std::string("FAIL key=") + rec->key + " msg=" + rec->msg;
   else { std::string key, msg; classify_crash(err, st, key, msg); res = "FAIL key=" + key + " msg=" + msg; }
-  if (show_err && res[0] == 'F' && !err.empty()) std::fprintf(stderr, "%s\n", err.substr(0, 8000).c_str());
+  if (show_err && res[0] == 'F' && !err.empty()) std::fprintf(stderr, "%s\n", err.substr(0, 400000).c_str());
   munmap(rec, sizeof(ExecRec));
   return res;
 }
